@@ -42,6 +42,7 @@ pub struct Graph {
     pub prim_destructive: Vec<usize>,
     pub raw_statics: Vec<String>,
     pub exp_statics: Vec<StaticItem>,
+    pub makes_arena: Vec<usize>,
     pub callback_cert: Vec<usize>,
     pub collector_cert: Vec<usize>,
     pub fresh_roots: Vec<usize>,
@@ -811,10 +812,15 @@ pub fn extract(c: &Crate, items: &Items, raw: &Raw) -> Graph {
     let _ = (free_nodes, impl_nodes, unresolved);
     // Closure certificates (checked, not trusted, by the Lean side: `closedB`, roots ⊆ set).
     // The root rule mirrors `GcArena.CallGraphDefs.callbackRoots`.
-    let excluded = |f: &FnNode| -> bool {
-        (f.self_head == "Arena" && (f.recv == "refMut" || f.recv == "value"))
-            || f.self_head == "MarkedArena"
-            || ["Arena::new", "Arena::try_new", "fn arena::rootless_mutate"].contains(&f.name.as_str())
+    let ctx_new: Vec<usize> = b.fns.iter().enumerate().filter(|(_, f)| f.name == "Context::new").map(|(i, _)| i).collect();
+    let makes_arena: Vec<usize> = {
+        let mut v: Vec<usize> = path_edges.iter().filter(|(_, g)| ctx_new.contains(g)).map(|(a, _)| *a).collect();
+        v.sort();
+        v.dedup();
+        v
+    };
+    let excluded = |i: usize, f: &FnNode| -> bool {
+        (f.self_head == "Arena" && (f.recv == "refMut" || f.recv == "value")) || f.self_head == "MarkedArena" || makes_arena.contains(&i)
     };
     let cut: BTreeSet<usize> =
         b.fns.iter().enumerate().filter(|(_, f)| f.is_drop_impl && f.self_head.ends_with("Builder")).map(|(i, _)| i).collect();
@@ -836,13 +842,14 @@ pub fn extract(c: &Crate, items: &Items, raw: &Raw) -> Graph {
         }
         seen.into_iter().collect()
     };
-    let cb_roots: Vec<usize> = b.fns.iter().enumerate().filter(|(_, f)| f.client_callable && !excluded(f)).map(|(i, _)| i).collect();
+    let cb_roots: Vec<usize> = b.fns.iter().enumerate().filter(|(i, f)| f.client_callable && !excluded(*i, f)).map(|(i, _)| i).collect();
     let cb_edges: Vec<(usize, usize)> = edges.iter().copied().filter(|(a, _)| !cut.contains(a)).collect();
     let callback_cert = close(cb_roots, &cb_edges);
     let rev: Vec<(usize, usize)> = edges.iter().map(|(a, g)| (*g, *a)).collect();
     let dc: Vec<usize> = b.fns.iter().enumerate().filter(|(_, f)| f.name == "Context::do_collection").map(|(i, _)| i).collect();
     let collector_cert = close(dc, &rev);
     Graph {
+        makes_arena,
         callback_cert,
         collector_cert,
         fns: b.fns,
@@ -871,14 +878,33 @@ impl Graph {
             .iter()
             .enumerate()
             .map(|(i, f)| {
+                let self_kind = match f.self_head.as_str() {
+                    "Arena" => ".arena",
+                    "MarkedArena" => ".markedArena",
+                    _ => ".other",
+                };
+                let tag = match f.name.as_str() {
+                    "Context::do_collection" => ".doCollection",
+                    "Context::sweep_one" => ".sweepOne",
+                    "<Context as Drop>::drop" => ".contextDrop",
+                    "<DropAll as Drop>::drop" => ".dropAllDrop",
+                    "GcPtr::drop_in_place" => ".gcPtrDropInPlace",
+                    "GcPtr::dealloc" => ".gcPtrDealloc",
+                    "Context::new" => ".contextNew",
+                    "Metrics::new" => ".metricsNew",
+                    _ => ".none",
+                };
                 format!(
-                    "  /- {i} -/ {{ name := {}, selfTy := {}, recv := .{}, clientCallable := {}, isUnsafe := {}, isDropImpl := {} }}",
+                    "  /- {i} -/ {{ name := {}, selfKind := {}, recv := .{}, clientCallable := {}, isUnsafe := {}, isDropImpl := {}, isBuilder := {}, makesArena := {}, tag := {} }}",
                     lean_str(&f.name),
-                    lean_str(&f.self_head),
+                    self_kind,
                     f.recv,
                     lean_bool(f.client_callable),
                     lean_bool(f.is_unsafe),
-                    lean_bool(f.is_drop_impl)
+                    lean_bool(f.is_drop_impl),
+                    lean_bool(f.self_head.ends_with("Builder")),
+                    lean_bool(self.makes_arena.contains(&i)),
+                    tag
                 )
             })
             .collect();
@@ -891,18 +917,28 @@ impl Graph {
             names.push("[]".into());
         }
         s.push_str(&format!("/-- Functions of the crate (node id = position). -/\ndef fns : List FnInfo := {}\n\n", names.join(" ++ ")));
-        let ev: Vec<String> = self.edges.iter().map(|(a, b)| format!("({a}, {b})")).collect();
+        // adjacency masks
+        let n = self.fns.len();
+        let mut succ: Vec<Vec<usize>> = vec![vec![]; n];
+        for (a, g) in &self.edges {
+            succ[*a].push(*g);
+        }
+        let av: Vec<String> = succ
+            .iter()
+            .enumerate()
+            .map(|(i, v)| format!("  /- {i} ⟶ {} -/ {}", v.iter().map(|x| x.to_string()).collect::<Vec<_>>().join(" "), hex_mask(v)))
+            .collect();
         let mut names = vec![];
-        for (k, chunk) in ev.chunks(200).enumerate() {
-            let lines: Vec<String> = chunk.chunks(12).map(|c| c.join(", ")).collect();
-            s.push_str(&format!("def edgesChunk{k} : List (Nat × Nat) := [\n  {}\n]\n\n", lines.join(",\n  ")));
-            names.push(format!("edgesChunk{k}"));
+        for (k, chunk) in av.chunks(100).enumerate() {
+            s.push_str(&format!("def adjChunk{k} : List Nat := [\n{}\n]\n\n", chunk.join(",\n")));
+            names.push(format!("adjChunk{k}"));
         }
         if names.is_empty() {
             names.push("[]".into());
         }
         s.push_str(&format!(
-            "/-- Call edges (explicit calls by name resolution, indirect calls through fn-pointer fields,\nimplicit `Drop` calls of values a function may own). -/\ndef edges : List (Nat × Nat) := {}\n\n",
+            "/-- Call graph as successor masks ({} edges): explicit calls by name resolution, indirect calls through\nfn-pointer fields, implicit `Drop` calls of values a function may own. -/\ndef adj : List Nat := {}\n\n",
+            self.edges.len(),
             names.join(" ++ ")
         ));
         s.push_str(&format!(
@@ -943,9 +979,9 @@ impl Graph {
         s.push_str(&format!("/-- Type of the field of `MarkedArena`. -/\ndef markedArenaField : String := {}\n\n", lean_str(&self.marked_arena_field)));
         s.push_str(&format!("/-- Functions constructing a `MarkedArena`. -/\ndef constructsMarkedArena : List Nat := {}\n\n", lean_nat_list(&self.constructs_marked_arena)));
         s.push_str(&format!(
-            "/-- Certificate: the set of nodes reachable from the callback-side entry points with the builder\n`Drop` impls cut (re-checked for closedness by the Lean side, not trusted). -/\ndef callbackClosureCert : List Nat := {}\n\n/-- Certificate: the nodes from which `Context::do_collection` is reachable. -/\ndef collectorClosureCert : List Nat := {}\n\n",
-            lean_nat_list(&self.callback_cert),
-            lean_nat_list(&self.collector_cert)
+            "/-- Certificate: the set of nodes reachable from the callback-side entry points with the builder\n`Drop` impls cut (re-checked for closedness by the Lean side, not trusted). -/\ndef callbackClosureCert : Nat := {}\n\n/-- Certificate: the nodes from which `Context::do_collection` is reachable. -/\ndef collectorClosureCert : Nat := {}\n\n",
+            hex_mask(&self.callback_cert),
+            hex_mask(&self.collector_cert)
         ));
         s.push_str(&format!(
             "def unclassified : List String := {}\n\nend GcArena.Generated.CallGraph\n",
@@ -996,4 +1032,19 @@ impl Graph {
             self.unclassified.iter().map(|x| json_str(x)).collect::<Vec<_>>().join(",")
         )
     }
+}
+
+/// Hex literal of the bit mask with the given bits set.
+pub fn hex_mask(bits: &[usize]) -> String {
+    let max = bits.iter().copied().max();
+    let Some(max) = max else { return "0x0".into() };
+    let mut nib = vec![0u8; max / 4 + 1];
+    for b in bits {
+        nib[b / 4] |= 1 << (b % 4);
+    }
+    let mut s = String::from("0x");
+    for d in nib.iter().rev() {
+        s.push(std::char::from_digit(*d as u32, 16).unwrap());
+    }
+    s
 }
